@@ -70,6 +70,7 @@ def run(chk):
         sym.TRANSPARENT_ADTS.update(old)
     panics.run_scope(chk, "R13-panic", prog, [b.id for b in prog.bodies.values() if "itemlist::ItemList" in b.id],
                      what="panic obligations (index, unwrap, arithmetic) in the ItemList methods", floor=1)
+    r13_bypass(chk, prog)
     chk.assumptions += ["std Vec/HashMap/slice functions behave as documented (push appends, swap_remove moves the last element into the hole, sort_by permutes)",
                         "not decided: the invariant itself over all operation histories (needs a program verifier, a different technique family)"]
 
@@ -263,3 +264,73 @@ def _run(chk, prog):
     if b is None:
         chk.add(Finding("R13-lookup", "R13-lookup::anchor::Index<&str>", "Index<&str> for ItemList not found"))
     chk.rule("R13-lookup", "name lookups go through `map`, element access uses the looked-up position", nl, floor=5)
+
+
+def _chain_calls(b, l, depth=0, seen=None):
+    """callees passed through while following the value of local l back to where it comes from (copies, references, field
+    projections, first argument of calls)"""
+    seen = set() if seen is None else seen
+    if depth > 14 or l in seen or 1 <= l <= b.argc:
+        return []
+    seen.add(l)
+    out = []
+    for blk in b.blocks:
+        if blk["cleanup"]:
+            continue
+        for st in blk["s"]:
+            if st["k"] == "assign" and not st["p"]["p"] and st["p"]["l"] == l:
+                rv = st["rv"]
+                pl = rv["p"] if rv["r"] == "ref" else (mir.op_place(rv["a"]) if rv["r"] in ("use", "cast") else None)
+                # a field of the value (other than the payload of an Option / Result) is a different object: stop there
+                if pl is not None and all(e == "*" or (isinstance(e, dict) and ("down" in e or (e.get("adt") or "").startswith(("std::option::Option", "std::result::Result")))) for e in pl["p"]):
+                    out += _chain_calls(b, pl["l"], depth + 1, seen)
+        t = blk["t"]
+        if t["k"] == "call" and t.get("dest") and not t["dest"]["p"] and t["dest"]["l"] == l:
+            out.append(t.get("res") or t.get("fn") or "?")
+            if t["args"]:
+                ap = mir.op_place(t["args"][0])
+                if ap is not None:
+                    out += _chain_calls(b, ap["l"], depth + 1, seen)
+    return out
+
+
+def r13_bypass(chk, prog, rule="R13-bypass"):
+    """the name of an element that sits in an ItemList is the key of the list's index: outside itemlist.rs nothing assigns to the
+    `name` field of an element reached through an ItemList (iteration, get_mut, index_mut); renaming goes through rename_item()"""
+    n = 0
+    for fid, b in sorted(prog.bodies.items()):
+        if not (b.file or "").startswith("a2lfile/src/") or b.file in ("a2lfile/src/itemlist.rs", "a2lfile/src/specification.rs"):
+            continue
+        for bi, si, st in b.stmts():
+            if st["k"] != "assign" or not st["p"]["p"]:
+                continue
+            last = st["p"]["p"][-1]
+            if not (isinstance(last, dict) and last.get("f") == "name" and (last.get("adt") or "").startswith("specification::")):
+                continue
+            n += 1
+            calls = _chain_calls(b, st["p"]["l"])
+            # by-value iteration (`for x in list`) hands out owned elements that are no longer in any list
+            via = [c for c in calls if "itemlist::ItemList" in c and not re.search(r"<itemlist::ItemList(<.*>)? as std::iter::IntoIterator>::into_iter$", c)]
+            if not all(e == "*" for e in st["p"]["p"][:-1]):
+                via = []        # a field of a nested object, not the element's own name
+            if via:
+                chk.add(Finding(rule, "%s::%s::%s" % (rule, mir.strip_generics(fid), last.get("adt", "").split("::")[-1]), "%s assigns the name of a %s that it reached through %s: the ItemList's name index keeps the old key (the element can no longer be found under its new name); use rename_item()" % (fid, last.get("adt"), mir.strip_generics(via[0])), b.where(st["ln"])))
+    chk.rule(rule, "assignments to the name field of specification elements outside itemlist.rs: not through an ItemList", n, floor=10)
+
+
+def shared(chk, rule, why, floor=50):
+    """the ItemList pairing / lookup rules as a necessary condition of another property whose code looks elements up by name"""
+    from . import common
+    sub = common.Check(chk.pid, chk.tier)
+    old = set(sym.TRANSPARENT_ADTS)
+    sym.TRANSPARENT_ADTS.clear()
+    try:
+        _run(sub, mir.prog())
+    finally:
+        sym.TRANSPARENT_ADTS.update(old)
+    prog = mir.prog()
+    panics.run_scope(sub, "R13-panic", prog, [b.id for b in prog.bodies.values() if "itemlist::ItemList" in b.id],
+                     what="panic obligations (index, unwrap, arithmetic) in the ItemList methods", floor=1)
+    for f in sub.findings:
+        chk.add(Finding(rule, f.key.replace("R13-", rule + "-"), why + ": " + f.msg, f.where, f.detail))
+    chk.rule(rule, "ItemList pairing/lookup rules (see C13) this property's code relies on", sum(r["instances"] for r in sub.rules), floor=floor)
